@@ -73,7 +73,7 @@ impl Chooser {
             rec: Vec::with_capacity(256),
             marks: Vec::new(),
             cfg_end: 0,
-            cap: 20_000,
+            cap: 400_000,
         }
     }
     pub fn replay(blocks: Vec<Vec<u32>>) -> Chooser {
@@ -82,7 +82,7 @@ impl Chooser {
             rec: Vec::with_capacity(256),
             marks: Vec::new(),
             cfg_end: 0,
-            cap: 20_000,
+            cap: 400_000,
         }
     }
     pub fn exhausted(&self) -> bool {
